@@ -74,12 +74,12 @@ CHECKS = {
    note="Verdicts compared as status sets.",
    tech="metamorphic testing (split vs merged) on proptest-generated inputs", ref="DESIGN.md 5/C17"),
  "C18": dict(
-   text="13 functions / composites on generated argument lists (strings of many shapes, numbers, bools, null, lists, unresolved members) in 4 argument forms vs independent implementations; result set read from the report; converters must raise errors on unparsable input; later use of a bound result; the documentation's own examples.",
+   text="16 functions / composites (incl. parse_char, parse_epoch vs a days-from-civil implementation) on generated argument lists (strings of many shapes, numbers, bools, null, lists, unresolved members) in 4 argument forms vs independent implementations; result set read from the report; converters must raise errors on unparsable input; later use of a bound result; the documentation's own examples.",
    note="Outcomes the documentation does not determine are generated but not asserted; Rust std string functions are trusted base.",
    tech="PBT against an independent reference implementation", ref="DESIGN.md 5/C18"),
  "C19": dict(
    text="rulegen (real binary) on generated templates (JSON / YAML): emitted text parses, one rule per type with properties, all PASS on the source template, and changing any scalar property value makes exactly that type's rule FAIL.",
-   note="Three recorded known findings (F18, F22, F32) are excluded by exact hazard signature.",
+   note="Four recorded known findings (F18, F22, F32, F34) are excluded by exact hazard signature.",
    tech="round-trip PBT (generate -> parse -> validate -> mutate)", ref="DESIGN.md 5/C19"),
 }
 
